@@ -10,7 +10,7 @@
 (* Header + data) whichever of the two encoding paths (LZMA2 / "incompress-   *)
 (* ible" fallback lzma_block_uncomp_encode) produced it; Stream Header, Index *)
 (* and Stream Footer are one unit each.                                       *)
-EXTENDS Naturals, Sequences, FiniteSets, TLC
+EXTENDS Integers, Sequences, FiniteSets, TLC
 
 CONSTANTS NW,        \* threads_max
           BS,        \* block_size in units
@@ -22,6 +22,7 @@ CONSTANTS NW,        \* threads_max
           FlushActs, \* subset of {"FULL_FLUSH", "FULL_BARRIER"} the application may use
           HdrSz,     \* size of the Stream Header (1 unit in model checking, 12 bytes in traces)
           TailSz,    \* size of Index + Stream Footer (2 units in model checking)
+          MaxUpdates, \* how often the application may call lzma_filters_update()
           MaxReinit, \* how often the application may re-initialise the handle without lzma_end()
           FixLostWorker, \* BOOLEAN: TRUE = the tree after commit 49f83e5 (stopped-before-started workers return themselves, re-init waits for quiescence); FALSE = xz 5.8.1 as released
           CountCalls \* BOOLEAN: count lzma_code calls (history variable for bounding; FALSE for liveness checking)
@@ -44,7 +45,12 @@ MInit == [pc |-> "out", act |-> "RUN", inAvail |-> 0, given |-> 0, outSpace |-> 
           closedAt |-> {},       \* input offsets at which a Block was closed before being full
           flushOffsets |-> {},   \* input offsets at which the application asked to end a Block / the Stream
           tailPos |-> 0, tailSz |-> TailSz,
-          lastProgress |-> 0, progressOk |-> TRUE, orderOk |-> TRUE, copyBad |-> FALSE, reinits |-> 0]
+          lastProgress |-> 0, progressOk |-> TRUE, orderOk |-> TRUE, copyBad |-> FALSE, reinits |-> 0,
+          chain |-> 0,           \* coder->filters: number of accepted lzma_filters_update() calls so far
+          cacheChain |-> -1,     \* coder->filters_cache: the chain copied for the next Block, or -1 if empty
+          blkChain |-> <<>>,     \* the chain each Block was started with
+          chainBase |-> 0,       \* chain version at the last (re-)initialisation
+          updates |-> 0, lastUpdateRet |-> "none"]
 CInit == [free |-> <<>>, threadErr |-> "OK", outq |-> <<>>, readPos |-> 0, sigM |-> FALSE, progressIn |-> 0]
 TInit == [state |-> "IDLE", inSize |-> 0, sig |-> FALSE, pc |-> "none", blk |-> 0, inPos |-> 0, snapIn |-> 0,
           snapState |-> "IDLE", result |-> "IDLE", progressIn |-> 0, incompr |-> FALSE, waiterMain |-> FALSE,
@@ -129,7 +135,8 @@ EncIn ==
     /\ m' = IF m.inAvail > 0 \/ (m.thr # 0 /\ m.act # "RUN")
             THEN IF m.thr # 0 THEN [m EXCEPT !.pc = "copy"]
                  ELSE IF m.bufsInUse >= BufsLimit THEN [m EXCEPT !.pc = "decide"]      \* !lzma_outq_has_buf
-                 ELSE [m EXCEPT !.pc = "gtpop"]
+                 ELSE \* get_thread(): output buffer preallocated, filters_cache filled from coder->filters if it is empty
+                      [m EXCEPT !.pc = "gtpop", !.cacheChain = IF m.cacheChain = -1 THEN m.chain ELSE m.cacheChain]
             ELSE [m EXCEPT !.pc = "decide"]
 
 \* get_thread(): coder.mutex, pop the free stack
@@ -157,6 +164,7 @@ GtStart ==
        IN /\ t' = SigW([t EXCEPT ![w].state = "RUN", ![w].inSize = 0, ![w].blk = b], w)
           /\ c' = [c EXCEPT !.outq = Append(c.outq, [b |-> b, fin |-> FALSE, osz |-> 0, usize |-> 0])]
           /\ m' = [m EXCEPT !.nblk = b, !.bufsInUse = @ + 1, !.pc = "copy",
+                            !.blkChain = Append(m.blkChain, m.cacheChain), !.cacheChain = -1,
                             !.blkStart = Append(m.blkStart, Consumed), !.blkLen = Append(m.blkLen, 0)]
 
 \* lzma_bufcpy into thr->in (no lock)
@@ -250,7 +258,7 @@ RWait ==
             \* repaired tree: additionally wait (coder.mutex / coder.cond) until every thread has returned itself to
             \* the stack of free threads, i.e. has finished touching the coder and its output buffer
             THEN m' = [m EXCEPT !.pc = "rqpark"] /\ UNCHANGED <<c, t>>
-       ELSE /\ m' = [MInit EXCEPT !.nInit = m.nInit, !.calls = m.calls, !.reinits = m.reinits, !.tailSz = m.tailSz,
+       ELSE /\ m' = [MInit EXCEPT !.nInit = m.nInit, !.calls = m.calls, !.reinits = m.reinits, !.tailSz = m.tailSz, !.chain = m.chain + 1, !.chainBase = m.chain + 1, !.updates = m.updates,
                                   !.orderOk = m.orderOk, !.progressOk = m.progressOk]
             /\ c' = [c EXCEPT !.outq = <<>>, !.readPos = 0, !.threadErr = "OK", !.progressIn = 0, !.sigM = FALSE]
             /\ UNCHANGED t
@@ -274,6 +282,15 @@ EndJoin ==
     /\ IF m.loopI < m.nInit
        THEN /\ t[m.loopI + 1].pc = "exited" /\ m' = [m EXCEPT !.loopI = @ + 1] /\ UNCHANGED <<c, t>>
        ELSE /\ m' = [m EXCEPT !.pc = "freed", !.nInit = 0, !.loopI = 0] /\ UNCHANGED <<c, t>>
+
+\* lzma_filters_update() between two calls (stream_encoder_mt_update): refused in the Index / Footer and while a
+\* Block is open; otherwise the new chain replaces coder->filters and the cached copy is dropped
+FiltersUpdate ==
+    /\ m.pc = "out" /\ ~m.ended /\ m.updates < MaxUpdates
+    /\ IF m.seq \notin {"HDR", "BLOCK"} \/ m.thr # 0
+       THEN m' = [m EXCEPT !.updates = @ + 1, !.lastUpdateRet = "PROG_ERROR"]
+       ELSE m' = [m EXCEPT !.updates = @ + 1, !.lastUpdateRet = "OK", !.chain = @ + 1, !.cacheChain = -1]
+    /\ UNCHANGED <<c, t>>
 
 \* lzma_get_progress() between two calls: coder.mutex, then every thr.mutex nested
 GetProgress ==
@@ -390,7 +407,7 @@ Main == Run \/ BlkRead \/ EncIn \/ GtPop \/ GtCreate \/ GtStart \/ Copy \/ Publi
         \/ WaitTimeout \/ StopStep \/ EndSignal \/ EndJoin \/ RStop \/ RWait \/ RWaitWake \/ RQuiesceWake
 
 App == \/ \E a \in {"RUN", "FINISH"} \cup FlushActs, g \in Gives, s \in Spaces : Call(a, Min(g, Total - m.given), s)
-       \/ AppEnd \/ AppReinit \/ GetProgress
+       \/ AppEnd \/ AppReinit \/ GetProgress \/ FiltersUpdate
 
 Terminated == m.pc = "freed"
 Next == Main \/ (\E w \in W : Worker(w)) \/ App \/ (Terminated /\ UNCHANGED vars)
